@@ -1682,8 +1682,16 @@ class Processor:
             if append_node:
                 updated_coords.append(deepest_lhs)
                 rem_idx += 1
+        copied_idxs = set()
         for idx, key in rem_dels:
-            del updated_coords[idx].deepest_node_coord.node[key]
+            deep_nc = updated_coords[idx].deepest_node_coord
+            if idx not in copied_idxs:
+                # A query must never edit the document itself; subtract from
+                # a copy of the matched Hash.
+                deep_nc.node = type(deep_nc.node)(deep_nc.node)
+                copied_idxs.add(idx)
+            if key in deep_nc.node:
+                del deep_nc.node[key]
 
         self.logger.debug((
             "Resulting data:"),
